@@ -150,7 +150,30 @@ func (s *Set) Run(plugin string, req *pluginpb.CodeGeneratorRequest, o RunOpts) 
 	cmd.Env = append(os.Environ(), o.Env...)
 	// address-space guard so that a runaway plugin cannot take the sandbox down
 	start := time.Now()
-	err = cmd.Run()
+	err = cmd.Start()
+	oomKilled := false
+	if err == nil {
+		// RSS watch: a runaway plugin is killed as soon as it exceeds the limit
+		stop := make(chan struct{})
+		go func() {
+			t := time.NewTicker(25 * time.Millisecond)
+			defer t.Stop()
+			for {
+				select {
+				case <-stop:
+					return
+				case <-t.C:
+					if rssMbOf(cmd.Process.Pid) > o.RSSMb {
+						oomKilled = true
+						_ = cmd.Process.Kill()
+						return
+					}
+				}
+			}
+		}()
+		err = cmd.Wait()
+		close(stop)
+	}
 	res.Ms = time.Since(start).Milliseconds()
 	res.Stderr = stderr.String()
 	if cmd.ProcessState != nil {
@@ -162,13 +185,23 @@ func (s *Set) Run(plugin string, req *pluginpb.CodeGeneratorRequest, o RunOpts) 
 		res.Exit = "timeout"
 		return res
 	}
-	if res.RSSMb > o.RSSMb {
+	if oomKilled || res.RSSMb > o.RSSMb {
 		res.Exit = "oom"
 		return res
 	}
 	if err != nil {
-		res.Exit = "crash"
-		res.Error = firstLines(stderr.String(), 6)
+		// A plugin may also answer through the conventional channel of protobuf-go plugins: a one-line
+		// diagnostic on stderr and exit status 1 (protoc reports it as the plugin's error message).
+		// A Go panic / runtime fatal error / death by signal is a crash.
+		se := stderr.String()
+		signalled := cmd.ProcessState != nil && !cmd.ProcessState.Exited()
+		if signalled || strings.Contains(se, "panic:") || strings.Contains(se, "goroutine ") || strings.Contains(se, "fatal error:") || strings.TrimSpace(se) == "" {
+			res.Exit = "crash"
+			res.Error = firstLines(se, 6)
+			return res
+		}
+		res.Exit = "error"
+		res.Error = firstLines(se, 6)
 		return res
 	}
 	var resp pluginpb.CodeGeneratorResponse
@@ -191,6 +224,22 @@ func (s *Set) Run(plugin string, req *pluginpb.CodeGeneratorRequest, o RunOpts) 
 		res.Files = append(res.Files, OutFile{Name: f.GetName(), Content: f.GetContent()})
 	}
 	return res
+}
+
+// rssMbOf reads VmRSS of a process from /proc.
+func rssMbOf(pid int) int64 {
+	b, err := os.ReadFile(fmt.Sprintf("/proc/%d/status", pid))
+	if err != nil {
+		return 0
+	}
+	for _, line := range strings.Split(string(b), "\n") {
+		if strings.HasPrefix(line, "VmRSS:") {
+			var kb int64
+			fmt.Sscanf(strings.TrimSpace(strings.TrimPrefix(line, "VmRSS:")), "%d", &kb)
+			return kb / 1024
+		}
+	}
+	return 0
 }
 
 func firstLines(s string, n int) string {
